@@ -13,7 +13,8 @@ RULE = ('one fixed deterministic workload (seed, case index -> inputs; TRNG and 
         'must be identical (and each harness also compares with the reference model, so "all equal" cannot hide "all wrong"); a '
         'configuration that does not build, crashes or aborts (acquire/release checker) is a violation; the workload objects must '
         'reference every public function (187 T symbols declared in src/ascon/*.h); distinct = (configuration, harness, case)')
-ASSUME = ['equality is established on the transcript inputs only', 'harness-internal masked-toolkit and raw-object-byte outputs are configuration dependent by design and are not part of the transcript']
+ASSUME = ['the AEAD and C++ harnesses are linked with the library\'s real random source here (deterministic getrandom underneath), so the acquire/release pairing of the TRNG is part of what the checker build observes',
+          'equality is established on the transcript inputs only', 'harness-internal masked-toolkit and raw-object-byte outputs are configuration dependent by design and are not part of the transcript']
 
 SHARDS = 8
 
@@ -22,11 +23,11 @@ def harnesses(thorough):
     k = 3 if thorough else 1
     return [
         with_args(H['perm'], 'perm', ['--mode', 'transcript'], 300 * k, 300 * k),
-        with_args(H['aead'], 'aead', ['--mode', 'transcript', '--arg', 'enc'], 3000 * k, 3000 * k),
-        with_args(H['aead'], 'aead', ['--mode', 'transcript', '--arg', 'dec'], 45 * k, 45 * k),
-        with_args(H['aead'], 'aead', ['--mode', 'transcript', '--arg', 'sess'], 600 * k, 600 * k),
+        with_args(H['aead-realtrng'], 'aead-realtrng', ['--mode', 'transcript', '--arg', 'enc'], 3000 * k, 3000 * k),
+        with_args(H['aead-realtrng'], 'aead-realtrng', ['--mode', 'transcript', '--arg', 'dec'], 45 * k, 45 * k),
+        with_args(H['aead-realtrng'], 'aead-realtrng', ['--mode', 'transcript', '--arg', 'sess'], 600 * k, 600 * k),
         with_args(H['sym'], 'sym', ['--mode', 'transcript', '--arg', 'all'], 3000 * k, 3000 * k),
-        with_args(H['cpp'], 'cpp', ['--mode', 'transcript'], 2100 * k, 2100 * k),
+        with_args(H['cpp-realtrng'], 'cpp-realtrng', ['--mode', 'transcript'], 2100 * k, 2100 * k),
         with_args(H['hex'], 'hex', ['--mode', 'transcript'], 300 * k, 300 * k),
         with_args(H['prng'], 'prng', ['--mode', 'transcript'], 150 * k, 150 * k),
     ]
@@ -110,7 +111,7 @@ def run(ctx):
         if exe is None:
             ctx.violations.append(Violation('C09', 'harness-does-not-compile:%s:%s' % (h['name'], b.cfg.name), {'log': log[-2000:]}, build=b))
             continue
-        ctx.run_harness(b, exe, h['name'], cases=h['cases_quick'], extra_args=h['extra_args'], shards=SHARDS, prop='C09')
+        ctx.run_harness(b, exe, h['name'], cases=h['cases_quick'], extra_args=h['extra_args'], shards=SHARDS, prop='C09', crash_key_cfg=True)
     # compare transcripts: for every (harness, args, case) the digest must be the same in all builds
     by_run = {}
     for (bname, hname, args), cases in ctx.transcripts.items():
